@@ -16,6 +16,7 @@ import Nq.Lemmas.SmtpSession
 import Nq.Lemmas.SmtpAddr
 import Nq.Lemmas.SmtpLip
 import Nq.Lemmas.SmtpCmdSpec
+import Nq.Lemmas.SmtpCmdSession
 import Nq.Lemmas.SmtpPolicyDoc
 
 namespace Nq.Props.C08
@@ -255,6 +256,20 @@ session `run` on the bytes still to come: no chunking changes what is dispatched
 theorem C08_io_run (cfg : Cfg) (qq : QQ) (i : ISt) (h : IWF i) (hrs : 0 ∉ i.rs) : runIO cfg qq i = run cfg qq (pending i) :=
   runIO_eq cfg qq i h hrs
 
+/-- …and with failing reads (which `saferead` turns into `die_read()`, like end of file): the session is the session on
+a prefix of those bytes — what the descriptor delivered before the failure. Every buffer state, every read script. -/
+theorem C08_io_run_any (cfg : Cfg) (qq : QQ) (i : ISt) (h : IWF i) : ∃ pre, pre <+: pending i ∧ runIO cfg qq i = run cfg qq pre :=
+  runIO_any cfg qq i h
+
+/-- **Sessions are laid out over the stream as the spec says** (`CmdLineSpec.Framed`): every event is the next
+LF-terminated line, its verb the table entry the spec selects and its MAIL/RCPT argument the spec's argument; a DATA
+answered 354 is followed by its message, ending where the RFC 5321 reference decoder says, and the next command line
+starts right there (message lines are never taken for commands, commands never for message lines); nothing is read
+after an event that ends the session; the rest after the last LF is not a command. For every byte stream — and, by
+`C08_io_run`, for every chunking of it into reads. -/
+theorem C08_frame_session (cfg : Cfg) (qq : QQ) (inp : Bytes) : Framed inp (run cfg qq inp) :=
+  run_framed cfg qq inp
+
 /-- **Sequencing, lifted to raw byte streams and every chunking.** -/
 theorem C08_submit_bytes (cfg : Cfg) (qq : QQ) (size : Nat) (inp : Bytes) (rs : List Nat) (hrs : 0 ∉ rs)
     (pre post : List Ev) (c : Cmd) (o : Out) (sub : Submit)
@@ -352,6 +367,12 @@ example : commandsIO tabEx (istart 4 inEx [3, 5, 2, 0]) = ([(1, [120]), (3, [])]
 example : (runIO cfgEx {} (istart 8 [77, 65, 73, 76, 32, 60, 115, 64, 120, 62, 13, 10, 82, 67, 80, 84, 32, 60, 117, 64, 76, 46, 69, 62, 10,
       68, 65, 84, 65, 13, 10, 120, 13, 10, 46, 13, 10, 81, 85, 73, 84, 10] (List.replicate 50 1))).map (fun x => (x.2.replies, x.2.submit)) =
     [([.mailok], none), ([.rcptok], none), ([.go, .accepted], some ⟨[115, 64, 120], [[117, 64, 76, 46, 69]], []⟩), ([.quit], none)] := by decide
+
+-- the layout of "NOOP\r\nquit\nx": two command lines, the second ends the session, "x" is never read
+example : Framed [78, 79, 79, 80, 13, 10, 113, 117, 105, 116, 10, 120]
+    [(.noop, { replies := [.noop] }), (.quit, { replies := [.quit], halt := true })] :=
+  Framed.cmd [78, 79, 79, 80, 13] _ _ _ _ (by decide) ⟨by decide, by simp [argOfCmd]⟩ rfl (by decide)
+    (Framed.last [113, 117, 105, 116] [120] _ _ (by decide) ⟨by decide, by simp [argOfCmd]⟩ rfl)
 
 -- documented rules on cfgEx: "u@a.W.e" is listed by ".w.e", "u@w.e" is not; "s@B" is a bad sender through "@b"
 example : RcptHostOK cfgEx [117, 64, 97, 46, 87, 46, 101] := (rcptHostOKB_iff _ _).1 (by decide)
